@@ -30,10 +30,14 @@ def selftest():
     pass
 
 
-def _state_ok(c, what):
-    """Either valid with an 8-bit triple and no error, or invalid with rgb None and a non-empty message."""
+def _state_ok(c, what, order=(0, 1, 2)):
+    """Either valid with an 8-bit triple and no error, or invalid with rgb None and a non-empty message.
+    `order` = the order in which the three attributes are first read (a lazily parsing object must answer the same)."""
     try:
-        valid, rgb, err = c.is_valid, c.rgb, c.error
+        got = {}
+        for k in order:
+            got[k] = (c.is_valid, None, None)[0] if k == 0 else (c.rgb if k == 1 else c.error)
+        valid, rgb, err = got[0], got[1], got[2]
     except Exception as e:
         raise Violation(exc_bucket(e), f"{what}: reading is_valid/rgb/error raised {e!r}")
     if valid:
@@ -66,7 +70,8 @@ def judge(case):
         c = Color(x)
     except Exception as e:
         raise Violation(exc_bucket(e), f"Color({x!r}) raised {e!r}")
-    vx = _state_ok(c, f"Color({x!r})")
+    order = tuple(case.get("order") or (0, 1, 2))
+    vx = _state_ok(c, f"Color({x!r}) [attributes read in order {order}]", order)
     combos = [(x, "#fff"), ("#000", x)]
     if y is not None:
         combos.append((x, y))
@@ -75,8 +80,8 @@ def judge(case):
             p = ColorPair(t, b)
         except Exception as e:
             raise Violation(exc_bucket(e), f"ColorPair({t!r}, {b!r}) raised {e!r}")
-        vt = _state_ok(p.text, f"ColorPair({t!r}, {b!r}).text")
-        vb = _state_ok(p.bg, f"ColorPair({t!r}, {b!r}).bg")
+        vt = _state_ok(p.text, f"ColorPair({t!r}, {b!r}).text [order {order}]", order)
+        vb = _state_ok(p.bg, f"ColorPair({t!r}, {b!r}).bg [order {order}]", order)
         try:
             pv, errs = p.is_valid, p.errors
         except Exception as e:
@@ -96,6 +101,20 @@ def judge(case):
             if mr != (None, False):
                 raise Violation("invalid-pair-make-readable", f"invalid ColorPair({t!r}, {b!r}).make_readable() = {mr!r}")
             if case.get("bulk"):
+                # also: the same invalid entry twice in a row, first in the list, alone
+                for pattern in (case.get("bulk_patterns") or []):
+                    pl = {"twice": [(t, b), (t, b)], "valid-then-twice": [("#000", "#fff"), (t, b), (t, b)], "alone": [(t, b)], "twice-large": [(t, b, True), (t, b, True)]}[pattern]
+                    invalid_at = {"twice": (0, 1), "valid-then-twice": (1, 2), "alone": (0,), "twice-large": (0, 1)}[pattern]
+                    try:
+                        po = make_readable_bulk(list(pl))
+                    except Exception as e:
+                        raise Violation(exc_bucket(e), f"make_readable_bulk({pl!r}) raised {e!r}")
+                    if len(po) != len(pl):
+                        raise Violation("bulk-length", f"bulk returned {len(po)} results for {len(pl)} entries ({pl!r})")
+                    for idx, (ent, res) in enumerate(zip(pl, po)):
+                        if idx in invalid_at:
+                            if not (isinstance(res[1], str) and "invalid" in res[1].lower()) or res[1] in ("readable", "very readable"):
+                                raise Violation("bulk-invalid-entry-report", f"bulk reported {res!r} for invalid entry {ent!r} in {pl!r}")
                 entries = [("#777", "#fff"), (t, b), ("#000", "#fff", True)]
                 try:
                     out = make_readable_bulk(entries)
@@ -117,11 +136,13 @@ def judge(case):
 def strategy():
     x = junk.anything().map(gc.enc)
     y = junk.anything().map(gc.enc)
+    order = st.permutations([0, 1, 2]).map(list)
+    pats = st.lists(st.sampled_from(["twice", "valid-then-twice", "alone", "twice-large"]), max_size=2, unique=True)
     return st.one_of(
+        st.tuples(x, order).map(lambda t: {"x": t[0], "order": t[1]}),
         x.map(lambda v: {"x": v}),
-        x.map(lambda v: {"x": v}),
-        st.tuples(x, y).map(lambda t: {"x": t[0], "y": t[1]}),
-        x.map(lambda v: {"x": v, "bulk": True}),
+        st.tuples(x, y, order).map(lambda t: {"x": t[0], "y": t[1], "order": t[2]}),
+        st.tuples(x, pats).map(lambda t: {"x": t[0], "bulk": True, "bulk_patterns": t[1]}),
     )
 
 
